@@ -2125,11 +2125,16 @@ impl RaftNode {
             }
 
             {
+                // The role goes down in the same critical section that raises
+                // the term, like in every other step-down: a heartbeat or
+                // proposal running beside the message loop reads role and
+                // term under this lock and must not see "leader" together
+                // with the new term.
                 let mut persistent = self.persistent.write();
                 persistent.current_term = pvr.term;
                 persistent.voted_for = None;
+                self.leadership.write().role = RaftState::Follower;
             }
-            self.leadership.write().role = RaftState::Follower;
             *self.in_pre_vote.write() = false;
             return;
         }
